@@ -8,7 +8,7 @@
    every run); inet_pton/inet_ntop/uuid_parse/uuid_unparse are universally quantified with named
    hypotheses.                                                                                  *)
 From OlaBase Require Import Bytes.
-From C20 Require Import Libc Spec Model Ipv6 ProofsDigits ProofsInt ProofsHex ProofsText ProofsIpv6 ProofsIpv6v4 ProofsExt ProofsPton4.
+From C20 Require Import Libc Spec Model Ipv6 ProofsDigits ProofsInt ProofsHex ProofsText ProofsIpv6 ProofsIpv6v4 ProofsExt ProofsPton4 ProofsUuid.
 From C20 Require Gen.
 Local Open Scope N_scope.
 
@@ -503,6 +503,31 @@ Theorem c20_high_bytes_rejected : forall t c, In c t -> 128 <= c ->
 Proof. exact high_byte_rejected. Qed.
 Print Assumptions c20_high_bytes_rejected.
 
+(* ACN component ids on the libuuid model: uuid_parse accepts EXACTLY the 36 character texts
+   8-4-4-4-12 hex digits (either case) with hyphens at positions 8, 13, 18, 23, and returns the 16
+   bytes the digit pairs denote (each <= 255); so CID::FromString returns exactly the denoted CID
+   for those texts (as C strings) and the nil CID for every other text.                          *)
+Theorem c20_cid_exact :
+  (forall s u, uuid_parse s = Some u <->
+     exists g1 g2 g3 g4 g5,
+       s = g1 ++ 45 :: g2 ++ 45 :: g3 ++ 45 :: g4 ++ 45 :: g5 /\
+       length g1 = 8%nat /\ length g2 = 4%nat /\ length g3 = 4%nat /\ length g4 = 4%nat /\ length g5 = 12%nat /\
+       forallb is_hex_char (g1 ++ g2 ++ g3 ++ g4 ++ g5) = true /\
+       u = pair_bytes (g1 ++ g2 ++ g3 ++ g4 ++ g5)) /\
+  (forall s u, uuid_form s u -> length u = 16%nat /\ Forall (fun b => b <= 255) u) /\
+  (forall t, (forall u, uuid_form (cstr t) u -> cid_from_string uuid_parse t = u) /\
+             ((forall u, ~ uuid_form (cstr t) u) -> cid_from_string uuid_parse t = nil_uuid)).
+Proof. split; [exact uuid_parse_exact|split; [exact uuid_form_bytes|exact cid_exact]]. Qed.
+Print Assumptions c20_cid_exact.
+
+(* StringTrim removes exactly a prefix and a suffix of blanks (" \n\r\t") and what is left neither
+   starts nor ends with one.                                                                      *)
+Theorem c20_trim : forall s, exists l r,
+  s = l ++ string_trim s ++ r /\ forallb is_trim l = true /\ forallb is_trim r = true /\
+  no_trim_first (string_trim s) /\ no_trim_first (rev (string_trim s)).
+Proof. exact string_trim_spec. Qed.
+Print Assumptions c20_trim.
+
 (* ---- non-vacuity ------------------------------------------------------------------------------- *)
 (* the hypotheses on the external functions are jointly satisfiable ... *)
 Example ex_net_hyps_sat :
@@ -574,3 +599,8 @@ Proof. vm_compute. split; reflexivity. Qed.
 Example ex_high_byte : hex_to_u8 [49; 178] = None /\ uid_from_string [55; 97; 55; 48; 58; 48; 48; 48; 48; 48; 48; 48; 177] = None /\
   mac_from_string [48; 49; 58; 50; 51; 58; 52; 53; 58; 54; 55; 58; 56; 57; 58; 97; 198] = None.
 Proof. vm_compute. repeat split; reflexivity. Qed.
+
+Example ex_cid_exact :
+  uuid_form (map lower_char (uuid_unparse (repeat 171 16))) (repeat 171 16) /\
+  cid_from_string uuid_parse [120] = nil_uuid.
+Proof. split; [apply uuid_parse_exact; vm_compute; reflexivity|vm_compute; reflexivity]. Qed.
